@@ -87,6 +87,9 @@ def _scores(rng, n, distinct):
 def _thresholds(rng, pool, force_list=None):
     def one():
         r = rng.random()
+        if r < 0.08:
+            # thresholds that come out of float arithmetic (0.1 + 0.2 = 0.30000000000000004, ...): used and shown as given
+            return Fraction(rng.choice([0.1 + 0.2, 0.7 + 0.1, 1.1 * 3, 0.1 * 3, 1 - 0.9, 2.675 * 100 / 100]))
         if r < 0.5:
             return rng.choice(pool)
         if r < 0.85:
@@ -573,6 +576,28 @@ def oracle(case, res):
     tab, overall = group_table(case, rows, labels, ts)
     want = normalise(case, tab, overall, labels, ts)
     nz = case["normalize"]
+    # a normalised entry is ONE division of the group's value by the divisor: the smallest row under by_min is exactly 1, and
+    # for the single-quotient rates (whose float value is the correctly rounded count ratio) the entry is that float quotient
+    direct = case["metric"] in ("tpr", "fnr", "tnr", "fpr", "ppv", "npv", "topr", "tonr", "tar", "frr", "trr", "far",
+                                "acceptance_rate", "rejection_rate")
+    if nz is not None:
+        for j, t in enumerate(ts):
+            defined = [tab[h][j] for h in labels if tab[h][j] is not None]
+            d = overall[j] if nz == "by_overall" else (min(defined) if defined and len(defined) == len(labels) else None)
+            if d is None or d == 0:
+                continue
+            for i, g in enumerate(got_labels):
+                if g not in want or tab[g][j] is None or V["data"][i][j] is None:
+                    continue
+                got_f = float(F(V["data"][i][j]))
+                if nz == "by_min" and tab[g][j] == d and got_f != 1.0:
+                    fails.append(("C18/by_min/smallest-row-not-1", f"by_min, threshold {float(t)}: group {list(g)} holds the smallest value "
+                                                                   f"{_fmt(d)} but its entry is {got_f!r}, not 1"))
+                    return fails
+                if direct and got_f != float(tab[g][j]) / float(d):
+                    fails.append((f"C18/{nz}/quotient", f"{nz}, group {list(g)} threshold {float(t)}: entry {got_f!r} is not the quotient "
+                                                        f"{float(tab[g][j])!r} / {float(d)!r} = {float(tab[g][j]) / float(d)!r}"))
+                    return fails
     for i, g in enumerate(got_labels):
         if g not in want:
             continue
